@@ -79,6 +79,10 @@ type c09Scn struct {
 	MeV    cert.Version
 	PV     cert.Version
 	Self   string // "" | "S1" S's cert is {my address} | "S2" S's cert is {s, my second address} | "S2resp" me (v1 initiator, dual cert) -> s, S answers
+	// SV: version of S's certificate in the S2 / S2resp shapes (0 = v2). v1 certificates may list several networks (the cert
+	// package accepts them although nebula-cert never issues them), so every multi-address shape exists in both versions:
+	// PCert AB / AO with PV = v1, PCert AB with MeV = v1 (then MY certificate is a two-network v1), S2 / S2resp with SV = v1.
+	SV cert.Version
 	// PCert "A+AB": P holds a certificate BUNDLE for one key, v1 {a} + v2 {a,b} (the v1->v2 rollout shape); PV is then P's
 	// pki.initiating_version. MeCert "dual": me holds v1 {my first address} + v2 {both}; MeV is my initiating version.
 	MeCert string
@@ -94,6 +98,9 @@ func (s c09Scn) String() string {
 	x := fmt.Sprintf("pcert=%s disc=%s remote=%s me=v%d p=v%d", s.PCert, s.Disc, s.Remote, s.MeV, s.PV)
 	if s.Self != "" {
 		x += " self=" + s.Self
+	}
+	if s.SV != 0 {
+		x += fmt.Sprintf(" s=v%d", s.SV)
 	}
 	if s.MeCert != "" {
 		x += " mecert=" + s.MeCert
@@ -395,7 +402,7 @@ func c09Build(tb testing.TB, seed int64, sc c09Scn, stats *c09Stats) *c09World {
 	case "S1":
 		specs = append(specs, vnodeSpec{Name: "s", Networks: "10.0.0.1/24", Udp: c09SUdp, Version: sc.PV, Overrides: m{"static_host_map": m{"10.0.0.5": []string{c09MeUdp}}}})
 	case "S2", "S2resp":
-		specs = append(specs, vnodeSpec{Name: "s", Networks: c09SAddr + "/24,10.1.0.1/24", Udp: c09SUdp, Overrides: m{"static_host_map": m{"10.0.0.5": []string{c09MeUdp}}}})
+		specs = append(specs, vnodeSpec{Name: "s", Networks: c09SAddr + "/24,10.1.0.1/24", Udp: c09SUdp, Version: sc.SV, Overrides: m{"static_host_map": m{"10.0.0.5": []string{c09MeUdp}}}})
 	}
 	for i := range specs {
 		if specs[i].Version == 0 {
@@ -582,6 +589,9 @@ func (w *c09World) checkNode(name string, n *vnode, where string) {
 		}
 		if info.v == cert.Version1 {
 			w.stats.peerV1++
+			if len(certAddrs) > 1 {
+				w.stats.inc("entriesWithV1CertOfSeveralAddresses:" + info.node)
+			}
 		} else {
 			w.stats.peerV2++
 		}
@@ -953,6 +963,19 @@ func c09NonPrimary(n *vnode, hi *HostInfo) bool {
 	return false
 }
 
+// v1Several: the node's (only) certificate is a version-1 certificate listing several networks.
+func (w *c09World) v1Several(n *vnode) bool {
+	if n == nil || len(w.own[n.spec.Name]) < 2 {
+		return false
+	}
+	for _, ci := range w.certs {
+		if ci.node == n.spec.Name && ci.v != cert.Version1 {
+			return false
+		}
+	}
+	return true
+}
+
 func (w *c09World) mainIdx(n *vnode) []uint32 {
 	n.f.hostMap.RLock()
 	defer n.f.hostMap.RUnlock()
@@ -1045,10 +1068,16 @@ func (w *c09World) deliverPool(i int, dup bool, where string) {
 		// whether the presented certificate really lists an own address is judged by the invariant on the installed entry
 		if slices.Equal(before, after) {
 			w.stats.selfInit++
+			if w.v1Several(src) {
+				w.stats.inc("selfClaimingInitiatorsWithV1CertOfSeveralAddresses")
+			}
 		}
 	case "selfResp":
 		if slices.Equal(before, after) {
 			w.stats.selfResp++
+			if w.v1Several(src) {
+				w.stats.inc("selfClaimingRespondersWithV1CertOfSeveralAddresses")
+			}
 		}
 	case "wrong":
 		w.stats.wrong++
@@ -1346,6 +1375,10 @@ func c09Scenarios(thorough bool) []c09Scn {
 		{PCert: "AB", Disc: "static", Remote: "P", MeV: v2, PV: v2},
 		{PCert: "A", Disc: "static", Remote: "QP", MeV: v1, PV: v2},
 		{PCert: "AO", Disc: "lh", Remote: "P", MeV: v2, PV: v2, Self: "S2"},
+		// the several-address shapes as VERSION-1 certificates: P {a,b}; S {s, my second address} as initiator and as responder
+		{PCert: "AB", Disc: "static", Remote: "P", MeV: v2, PV: v1},
+		{PCert: "A", Disc: "static", Remote: "P", MeV: v2, PV: v2, Self: "S2", SV: v1},
+		{PCert: "A", Disc: "lh", Remote: "P", MeV: v2, PV: v2, Self: "S2resp", SV: v1},
 		// P runs a certificate bundle v1 {a} + v2 {a,b} and initiates with v1; start state: my tunnel to P (v2 certificate, {a,b})
 		// is up on both sides while P's own v1 handshake to me is still in flight
 		{PCert: "A+AB", Disc: "static", Remote: "P", MeV: v2, PV: v1, Maint: "m", Pre: c09PreCrossing, TD: 5},
@@ -1388,6 +1421,19 @@ func c09Scenarios(thorough bool) []c09Scn {
 		}
 	}
 	add(c09Scn{PCert: "A", Disc: "static", Remote: "P", MeV: v1, PV: v1, Self: "S1"})
+	// shape x version: every several-address shape also with version-1 certificates on either / both sides
+	for _, pc := range []string{"AB", "AO"} {
+		for _, vv := range [][2]cert.Version{{v1, v1}, {v1, v2}, {v2, v1}} {
+			add(c09Scn{PCert: pc, Disc: "static", Remote: "QP", MeV: vv[0], PV: vv[1]})
+			add(c09Scn{PCert: pc, Disc: "lh", Remote: "P", MeV: vv[0], PV: vv[1]})
+		}
+		add(c09Scn{PCert: pc, Disc: "relay", Remote: "QP", MeV: v1, PV: v1})
+	}
+	for _, self := range []string{"S2", "S2resp"} {
+		for _, d := range []string{"static", "lh"} {
+			add(c09Scn{PCert: "A", Disc: d, Remote: "P", MeV: v2, PV: v2, Self: self, SV: v1})
+		}
+	}
 	// hostmap maintenance over tunnels with divergent certificate address sets: from scratch, with me holding a bundle too
 	// (then P's tunnels to me diverge as well: v1 {my first address} / v2 {both}), and over equal sets (single v2 certificates)
 	add(c09Scn{PCert: "A+AB", Disc: "static", Remote: "P", MeV: v2, PV: v1, Maint: "m", TD: 6})
@@ -1717,6 +1763,9 @@ func TestVerifC09(t *testing.T) {
 		c.Require(stats.peerV1 > 0 && stats.peerV2 > 0, "certificate versions: v1=%d v2=%d", stats.peerV1, stats.peerV2)
 		c.Require(stats.several > 0, "never more than one tunnel per address")
 		c.Require(stats.closureToP > 0 && stats.closureNoTunnel > 0, "closure outcomes: toP=%d none=%d", stats.closureToP, stats.closureNoTunnel)
+		// several-address shapes as version-1 certificates
+		c.Require(x["entriesWithV1CertOfSeveralAddresses:p"] > 0, "no tunnel from a version-1 certificate listing several addresses: %v", x)
+		c.Require(x["selfClaimingInitiatorsWithV1CertOfSeveralAddresses"] > 0 && x["selfClaimingRespondersWithV1CertOfSeveralAddresses"] > 0, "self-claiming peer with a version-1 certificate of several addresses not refused as initiator and as responder: %v", x)
 		// hostmap maintenance over sibling tunnels with divergent certificate address sets
 		c.Require(x["divergentListsInSearch"] > 0, "no address ever held sibling tunnels whose certificates list different address sets: %v", x)
 		c.Require(x["promotions:cm"] > 0 && x["promotions:pm"] > 0, "promotion of a non-primary tunnel not reached by the connection manager and by MakePrimary: %v", x)
